@@ -368,3 +368,6 @@ class C17(Prop):
 
 
 PROP = C17()
+
+PROP.rule += (" Strata added while closing seeded changes (DESIGN section 10): "
+              'retyped curves, exact dtypes, np.nan header values, moved item objects.')
